@@ -126,6 +126,10 @@ CHECKS["C05"] = {
             "errors (C05_const_dyn_agree; only exception null == null). WHOLE EXPRESSIONS of the fragment literals / locals / objects by id / this / property reads o.p / subscripts o[i] / casts / unary / binary incl. && || / ?: / list expressions / method calls / "
             "Math.max,min / qsTr / console.* / assignments to variables, properties and list elements, in any nesting: whatever the translator accepts has a derivation in the declarative relation Typed built from those tables, with the returned operand's type "
             "(C05_accepted_expressions_are_typed, induction over expressions through the builder monad; contrapositive C05_ill_typed_expressions_are_rejected). "
+            "WHOLE PROGRAMS on the generated code (C05_generated_code_is_typed, for every class environment and every binding / handler, statements included, no fragment): "
+            "every statement of the code the model of tir::build* produces is typed by the tables -- operators only on operand types with a row, results in a temporary "
+            "of the row's type, copies / property writes / element writes / call arguments assignable, casts documented, subscripts list[integer], one common list element "
+            "type, branch conditions bool; the invariant is carried through every visitor and walker of the translator (proofs/IrTyped.v). "
             "Other programs are decided one by one: the real tir::build* against the model on the "
             "EXHAUSTIVE operator table (25 binary operators x 28 x 28 operand representatives, unary, 16 cast targets, Math.max/min, ternary, conditions, "
             "declarations, assignments, call arguments, subscripts, arrays -- quick tier: all small families plus a seeded 6000 of the binary/Math cells) and on "
